@@ -55,11 +55,12 @@ def mk_hist(data, w=None):
 
     kw = {}
     if w is not None:
-        kw["weights"] = np.array([w] * len(data), dtype=(np.int64 if isinstance(w, int) else np.float64))
+        kw["weights"] = np.array([w] * len(data), dtype=(np.int64 if isinstance(w, int) and not isinstance(w, bool) else np.float64))
     return h1(np.array(data, dtype=float), np.array(EDGES), **kw)
 
 
 PARTNERS = {
+    "p_zero": ([3.5, 0.0], 0.0),   # total weight 0, but values were entered: min / max must still count
     "p_empty": ([], None),
     "p_one": ([0.25], None),
     "p_two_w": ([3.5, 0.0], 0.5),
@@ -108,6 +109,14 @@ class StatsSystem(H.System):
                 ops.append(("add", "p_one"))
                 ops.append(("radd", "p_one"))
             ops.append(("add", "p_empty"))
+            if room >= 1:
+                ops.append(("fill", 4.0, 0.0))
+                ops.append(("fill_n", (0.0,), (0.0,)))
+            if room >= 2:
+                ops.append(("add", "p_zero"))
+                ops.append(("radd", "p_zero"))
+                ops.append(("iadd", "p_zero"))
+                ops.append(("fill_n", (0.0, 4.0), (0.0, 0.0)))
             if room >= 2:
                 for a, b in itertools.product(VALUES, repeat=2):
                     ops.append(("fill_n", (a, b), None))
@@ -315,6 +324,18 @@ def eval_terminal(case):
             o -= other
             return o
         res = call(f)
+    elif kind == "free_sub":
+        def f():
+            with config.enable_free_arithmetics():
+                return h - other
+        res = call(f)
+    elif kind == "free_isub":
+        def f():
+            with config.enable_free_arithmetics():
+                o = h
+                o -= other
+                return o
+        res = call(f)
     elif kind == "free_mul_array":
         def f():
             with config.enable_free_arithmetics():
@@ -346,7 +367,7 @@ def eval_terminal(case):
     if bad and not (kind in ("slice", "mask") and False):
         # a wrong number is a violation; for an empty source (no data) zeros are the truth
         if data or kind not in ("bare_frequencies",):
-            if not (not data and kind in ("slice", "mask", "sub", "isub")):
+            if not (not data and kind in ("slice", "mask", "sub", "isub", "free_sub", "free_isub")):
                 out.append(V("invalid_reads_nan", f"invalidated_not_nan|{kind}", case, "all statistics NaN", bad))
     return out
 
@@ -379,7 +400,7 @@ def run_unit(unit, ctx):
         datasets = [[]] + [[v] for v in VALUES] + [[a, b] for a, b in itertools.product(VALUES[::2], repeat=2)] + [[0.25, 1.75, 3.5]]
         for data in datasets:
             for w in WEIGHTS:
-                for kind in ("normalize", "normalize_inplace", "percent", "sub", "isub", "free_mul_array", "free_add_array", "free_div_array",
+                for kind in ("normalize", "normalize_inplace", "percent", "sub", "isub", "free_sub", "free_isub", "free_mul_array", "free_add_array", "free_div_array",
                              "bare_frequencies", "slice", "mask"):
                     case = {"data": data, "w": w, "kind": kind}
                     vs = eval_terminal(case)
